@@ -203,6 +203,12 @@ func checkApplyOpts(doc *JV, ops []Op, optmask int) {
 	vx.Assert(refEqual(got, ref.Doc), "C13/result-equals-reference")
 	vx.Assert(refEqualOrdered(got, ref.Doc), "C14/result-equals-reference-ensure")
 	vx.Assert(refEqualOrdered(got, ref.Doc), "C05/order-and-literals")
+	if vx.ParamOr("stable", 0) == 1 {
+		// the returned document must stay what it is while the caller goes on using the library
+		snap := append([]byte(nil), r.out...)
+		runApply([]byte(`{"other":"document","n":[1,2,3]}`), []byte(`[{"op":"add","path":"/x","value":"y"}]`), jsonpatch.NewApplyOptions())
+		vx.Assert(vx.EqBytes(r.out, snap), "C05/result-not-overwritten-by-a-later-call")
+	}
 	vx.Reach("apply/end")
 }
 
@@ -356,4 +362,49 @@ func H_Options_Reuse() {
 	}
 	vx.Assert(o.AccumulatedCopySizeLimit == limit && o.EscapeHTML == escape, "C09/options-not-written")
 	vx.Reach("reuse/end")
+}
+
+// H_PackageDefault_Sequence (C12): the package-level default is read by every Apply / ApplyIndent call, also
+// when it is changed between calls.
+func H_PackageDefault_Sequence() {
+	doc := docShape(13, "d.")
+	docB := render(doc)
+	tok := func(s string) Tok { return Tok{Raw: []byte(s), Name: []byte(s)} }
+	cp := Op{Kind: OpCopy, From: Ptr{Toks: []Tok{tok("a")}}, Path: Ptr{Toks: []Tok{tok("z")}}}
+	pB := renderPatch([]Op{cp})
+	first := vx.Int64("pkg.first")
+	second := vx.Int64("pkg.second")
+	indent := vx.Choose("indent", 2) == 1
+	vx.Note("doc", docB)
+	var out []byte
+	var err error
+	panicked := vx.CatchPanic(func() {
+		p, derr := jsonpatch.DecodePatch(pB)
+		if derr != nil {
+			return
+		}
+		jsonpatch.AccumulatedCopySizeLimit = first
+		p.Apply(docB)
+		jsonpatch.AccumulatedCopySizeLimit = second
+		if indent {
+			out, err = p.ApplyIndent(docB, " ")
+		} else {
+			out, err = p.Apply(docB)
+		}
+	})
+	vx.Assert(!panicked, "C04/apply-no-panic")
+	if panicked {
+		return
+	}
+	ref := refApply(doc, []Op{cp}, RefOpts{NegIdx: true}, second, func(v *JV) int { return escapedSize(v, true) })
+	if ref.Outside {
+		return
+	}
+	if ref.Err == eCopyLimit {
+		vx.Assert(err != nil && errIsCopy(err) && out == nil, "C12/package-default-read-on-every-call")
+		vx.Reach("pkgseq/limit-hit")
+	} else {
+		vx.Assert(err == nil, "C12/package-default-read-on-every-call")
+	}
+	vx.Reach("pkgseq/end")
 }
